@@ -305,10 +305,9 @@ def main():
         else:
             raise SystemExit("unknown argument " + args[i])
     seed = int(os.environ.get("VERIF_SEED", "1"))
-    index = load_json(os.path.join(VERIF, "props_index.json"))
-    if pid not in index:
+    P = load_json(os.path.join(VERIF, "props", pid + ".json"))
+    if P is None:
         raise SystemExit("unknown property " + pid)
-    P = index[pid]
     t0 = time.time()
     work = os.path.join(VERIF, "work", "%s-%d" % (pid, os.getpid()))
     os.makedirs(work, exist_ok=True)
